@@ -75,7 +75,11 @@ def gen(tier, seed):
     def variant(j):
         v = dict(j)
         r = rnd.random()
-        if r < 0.3:
+        if r < 0.12 and isinstance(v.get("kty"), str):
+            # same members, kty spelled in another letter case: same registered type, DIFFERENT thumbprint input
+            k = v["kty"]
+            v["kty"] = rnd.choice([k.upper(), k.lower(), k.swapcase(), k.capitalize()])
+        elif r < 0.3:
             v = shuffled(rnd, v)
         elif r < 0.5:
             v["extra%d" % rnd.randint(0, 9)] = rnd.choice([1, "x", None])
@@ -191,5 +195,5 @@ def correspond(ctx):
     cases, dist = gen(ctx["tier"], ctx["seed"])
     return runner.standard(
         ctx, cases, Oracle(), nontrivial,
-        rule="jose_jwk_thp / _thp_buf / _eql on generated keys (all types, kty spellings, missing/extra members, member orders, non-ASCII and escape-needing values, non-string values), all five hash names + unknown ones, buffer sizes around the digest length, pairs and triples for the relation laws; non-trivial = a thumbprint was produced / keys compared equal",
+        rule="jose_jwk_thp / _thp_buf / _eql on generated keys (all types, kty spellings (incl. pairs that differ ONLY in the letter case of kty), missing/extra members, member orders, non-ASCII and escape-needing values, non-string values), all five hash names + unknown ones, buffer sizes around the digest length, pairs and triples for the relation laws; non-trivial = a thumbprint was produced / keys compared equal",
         dist=dist)
